@@ -49,4 +49,9 @@ META = {
   "text": "Each generated snapshot is replayed hundreds of times with exactly one fault each; 'incomplete' is decided by comparing the double's final keyspace with the dataset, and the forbidden outcome (success reported / snapshot offset stored / next start resumes behind the snapshot) is read off the double's request log and a fresh StartPoint. Fault enumeration: the fault space per case is finite and cheap.",
   "note": "Plain replay path; trusted base as C03. Cancellation instants are 'after the k-th target request' (the harness does not own the Go scheduler inside the tool). A footer alteration that would fabricate the all-zero 'checksum disabled' footer is skipped.",
  },
+ "C10": {
+  "technique": "property-based testing (rapid), differential against a reference filter model: pure layer on the filter API and end-to-end layer through the real output (incremental and snapshot paths); native go fuzzing of the slot-range decision in the thorough tier",
+  "text": "Configurations with overlapping/nested/reversed ranges and mixed-acceptance multi-key commands are generated deliberately; the reference model restates the property (union of ranges, byte-prefix rules, projection of DEL/UNLINK/MSET) independently of the tool's trie/range-list/keyspec code. Exploration level over configurations x commands.",
+  "note": "Commands are drawn from the reference key-position table only (the property quantifies over the supported key-addressed command set); empty prefixes are not generated (a YAML list entry \"\" is not a meaningful configuration).",
+ },
 }
